@@ -115,6 +115,11 @@ def gen_history(rng, length, malformed=0.06, focus=None):
                         ops.append([38, h, i])
                         if S.owners(b) == 1: S.written[b].add(i)
                     continue
+                if c == 16 and k in ('MA', 'MAS') and len(S.written[b]) >= S.ncells[b] and rng.random() < 0.35:
+                    # a fully written uninitialised Arc is shared before it is assumed initialised (assume_init is a
+                    # pure type change: it must not care)
+                    ops.append([20, h]); S.t.append([k, b, 'O'])
+                    continue
                 ops.append([23, c, h])
                 if c == 16:
                     if len(S.written[b]) >= S.ncells[b]: S.t[h][0] = CONV[(c, k)]
